@@ -321,7 +321,8 @@ def oracle_fifo(tr, scripts):
                 ma, mb = msg[(a['client'], a['pc'])], msg[(b['client'], b['pc'])]
                 if mb in pos:
                     if ma not in pos:
-                        if a['kind'] in ('send', 'sender_send', 'weak_send') or ok_a:
+                        # (a call that returned Canceled had been accepted: its message was dropped without ever being handled)
+                        if a['kind'] in ('send', 'sender_send', 'weak_send') or ok_a or 'Canceled' in str(a['result']):
                             v.append(f"{mb} was handled without {ma} although {ma}'s submission had completed first")
                     elif pos[ma] > pos[mb]:
                         v.append(f"{mb} handled before {ma} although {ma}'s submission had completed first")
